@@ -97,13 +97,22 @@ def run_symgo(prop, run, tier, known_keys):
     env = goenv(cfg.get("module", ""))
     env["VERIF_KNOWN"] = ",".join(sorted(known_keys))
     t0 = time.time()
-    p = subprocess.run(cmd, env=env, stdout=subprocess.PIPE, stderr=subprocess.STDOUT, text=True)
     res = None
-    if os.path.exists(outp):
-        res = json.load(open(outp))
-        os.unlink(outp)
+    crashes = []
+    for attempt in range(3):
+        # an engine process that dies without writing its result (a crash of the tool, not a verdict) is
+        # started again, at most twice; every crash is kept in the evidence (engine_crashes)
+        p = subprocess.run(cmd, env=env, stdout=subprocess.PIPE, stderr=subprocess.STDOUT, text=True)
+        if os.path.exists(outp):
+            res = json.load(open(outp))
+            os.unlink(outp)
+            break
+        crashes.append((p.stdout[:1500] + "\n...\n" + p.stdout[-1500:]) if len(p.stdout) > 3000 else p.stdout)
+        sys.stderr.write("ENGINE-CRASH %s attempt %d rc=%s\n%s\n" % (run["harness"], attempt + 1, p.returncode, crashes[-1][:1500]))
+    if res is not None and crashes:
+        res["engine_crashes"] = crashes
     if res is None:
-        res = {"harness": run["harness"], "status": "inconclusive", "stop_reason": "symgo produced no result: " + p.stdout[-2000:],
+        res = {"harness": run["harness"], "status": "inconclusive", "stop_reason": "symgo produced no result: " + p.stdout[:1000] + " ... " + p.stdout[-2000:],
                "paths": 0, "queries": 0}
     res["cmd_wall_s"] = time.time() - t0
     res["log"] = "\n".join(l for l in p.stdout.splitlines() if not l.startswith("WARNING"))[-4000:]
